@@ -124,7 +124,10 @@ func abiBytes2(key, val []byte) []byte {
 func headWords(r *RNG, n int) []byte {
 	w := make([]byte, 32)
 	var v *big.Int
-	switch r.Intn(9) {
+	switch r.Intn(11) {
+	case 9, 10:
+		// a bit at or above 2^64 set, low 64 bits small: looks in-range to code that truncates
+		v = new(big.Int).Add(new(big.Int).Lsh(big.NewInt(1), uint(pick(r, []int{64, 65, 128, 255}))), big.NewInt(int64(r.Intn(40))))
 	case 0:
 		v = big.NewInt(0)
 	case 1:
@@ -209,7 +212,7 @@ func genC03(seed uint64, tier string) *Scenario {
 	for i := 0; i < n; i++ {
 		g.targets = append(g.targets, contractAddr(i))
 	}
-	profile := pick(r, []string{"raw", "journal", "journal", "artela", "artela", "mixed"})
+	profile := pick(r, []string{"raw", "journal", "journal", "artela", "artela", "mixed", "copy"})
 	sc.Profile = profile
 	for i := 0; i < n; i++ {
 		a := Account{Addr: contractAddr(i), Balance: hxu(uint64(r.Intn(5000))), Nonce: 1}
@@ -239,6 +242,28 @@ func genC03(seed uint64, tier string) *Scenario {
 			for k := 0; k < m; k++ {
 				x := r.Intn(10)
 				switch {
+				case profile == "copy" && x < 7:
+					// copy / hash / log instructions with sizes that are only affordable if the gas
+					// rule forgets to charge for them (warm targets, existing memory, large lengths)
+					big := pick(r, []string{"0x100000", "0x800000", "0x4000000", "0x20000", "0xffffffff"})
+					tgt := pick(r, []string{contractAddr(i), contractAddr(0), "0x4", "0x1", eoaA})
+					off := hxu(uint64(32 * r.Intn(4)))
+					switch r.Intn(7) {
+					case 0:
+						p.M = append(p.M, Macro{K: "op", Op: "EXTCODECOPY", A: []string{tgt, off, "0x0", big}})
+					case 1:
+						p.M = append(p.M, Macro{K: "op", Op: "CODECOPY", A: []string{off, "0x0", big}})
+					case 2:
+						p.M = append(p.M, Macro{K: "op", Op: "CALLDATACOPY", A: []string{off, "0x0", big}})
+					case 3:
+						p.M = append(p.M, Macro{K: "op", Op: "KECCAK256", A: []string{off, big}})
+					case 4:
+						p.M = append(p.M, Macro{K: "op", Op: "LOG0", A: []string{off, big}})
+					case 5:
+						p.M = append(p.M, Macro{K: "op", Op: "MCOPY", A: []string{off, "0x0", big}})
+					default:
+						p.M = append(p.M, Macro{K: "call", Op: pick(r, []string{"CALL", "STATICCALL"}), A: []string{"GAS", tgt, "0x0", off, big, off, "0x20"}})
+					}
 				case (profile == "journal" || profile == "mixed") && x < 6:
 					p.M = append(p.M, genJournalAdversarial(r)...)
 				case (profile == "artela" || profile == "mixed") && x < 6:
